@@ -217,4 +217,4 @@ KNOWN_PREDICATES = {}
 
 # coverage-guided second driver (atheris / libFuzzer through Hypothesis' fuzz_one_input) for the core clauses: (clause, quick runs, thorough runs)
 from harness.covfuzz import cov_clauses  # noqa: E402
-CLAUSES += cov_clauses('C02', CLAUSES, [('regexp', 1500, 30000), ('cfg', 800, 15000), ('pda', 800, 15000)])
+CLAUSES += cov_clauses('C02', CLAUSES, [('regexp', 1500, 10000), ('cfg', 800, 5000), ('pda', 800, 5000)])
